@@ -88,6 +88,9 @@ class SetupGen:
 
     def vq_book(self, dim=None, used=None):
         rng = self.rng
+        if not self.rich:
+            dim = dim or rng.choice([1, 2, 4])
+            used = used or rng.choice([4, 8, 16, 81])
         dim = dim or rng.choice([1, 1, 2, 2, 3, 4, 4, 5, 8, 16])
         used = used or rng.choice([1, 2, 3, 5, 8, 9, 16, 27, 32, 81, 128, 243])
         return self.add_book(used, dim, True)
@@ -128,6 +131,9 @@ class SetupGen:
     def floor0(self):
         rng = self.rng
         nb = rng.choice([1, 1, 2, 3, 16])
+        if not self.rich:
+            return {"type": 0, "order": rng.choice([2, 8, 16]), "rate": 44100, "barkmap": rng.choice([64, 256]), "ampbits": rng.choice([4, 6]),
+                    "ampdB": 140, "books": [self.vq_book(rng.choice([1, 2, 4]), rng.choice([4, 16, 64]))]}
         return {"type": 0, "order": rng.choice([1, 2, 3, 8, 9, 16, 30, 31, 64, 255]), "rate": rng.choice([1, 8000, 22050, 44100, 48000, 65535]),
                 "barkmap": rng.choice([1, 2, 16, 64, 128, 256, 1024, 65535]), "ampbits": rng.choice([0, 1, 4, 6, 8, 16, 24]),
                 "ampdB": rng.choice([0, 1, 90, 140, 255]), "books": [self.vq_book() for _ in range(nb)]}
@@ -145,16 +151,19 @@ class SetupGen:
                            None if need > 1 else "plain")
         casc, books = [], []
         for _ in range(parts):
-            c = rng.choice([0, 0, 1, 2, 3, 4, 5, 0x80, 0x81, 0x0f, 0xff, rng.below(256)]) if self.rich else rng.choice([0, 1, 3])
+            c = rng.choice([0, 1, 1, 2, 3, 3, 4, 5, 7, 0x80, 0x81, 0x0f, 0xff, rng.below(256)]) if self.rich else rng.choice([0, 1, 3])
             casc.append(c)
             for k in range(8):
                 if c >> k & 1:
                     books.append(self.vq_book())
         half = self.bs1 // 2
         mult = self.ch if typ == 2 else 1
-        begin = rng.choice([0, 0, 0, 1, 7, half // 4, half * mult, half * mult + 5])
-        end = rng.choice([half * mult, half * mult, half * mult // 2, self.bs0 // 2 * mult, half * mult + 100, 0, begin, (1 << 24) - 1])
-        return {"type": typ, "begin": begin, "end": end, "grouping": rng.choice([1, 2, 3, 4, 8, 16, 32, 33, 64, 1 << 20]), "partitions": parts,
+        if not self.rich:
+            return {"type": typ, "begin": 0, "end": half * mult, "grouping": rng.choice([2, 4, 8, 16]), "partitions": parts,
+                    "groupbook": gb, "cascade": casc, "books": books}
+        begin = rng.choice([0, 0, 0, 0, 0, 1, 7, half // 4, half * mult, half * mult + 5])
+        end = rng.choice([half * mult, half * mult, half * mult, half * mult // 2, self.bs0 // 2 * mult, half * mult + 100, 0, begin, (1 << 24) - 1])
+        return {"type": typ, "begin": begin, "end": end, "grouping": rng.choice([1, 2, 3, 4, 8, 8, 16, 16, 32, 33, 64, 1 << 20]), "partitions": parts,
                 "groupbook": gb, "cascade": casc, "books": books}
 
     def build(self):
@@ -191,25 +200,28 @@ def gen_stream(rng, big=False, max_ch=4):
     bs0 = rng.choice(sizes)
     bs1 = rng.choice([s for s in sizes if s >= bs0])
     rate = rng.choice([8000, 22050, 44100, 48000, 1, 4294967295])
-    setup = SetupGen(rng, ch, bs0, bs1).build()
+    rich = rng.below(2) == 0
+    setup = SetupGen(rng, ch, bs0, bs1, rich=rich).build()
     hid = streams.id_header(ch, rate, bs0, bs1)
     hc = streams.comment_header()
     hs = streams.setup_header(setup, ch)
     return {"channels": ch, "rate": rate, "bs0": bs0, "bs1": bs1, "setup": setup, "headers": [hid, hc, hs]}
 
 
-def gen_packet(rng, st, mode=None, nbytes=None):
+def gen_packet(rng, st, mode=None, nbytes=None, lW=None, nW=None):
     modes = st["setup"]["modes"]
     mode = rng.below(len(modes)) if mode is None else mode
     w = BitWriter()
     w.write(0, 1)
     w.write(mode, ilog(len(modes) - 1))
     if modes[mode]["blockflag"]:
-        w.write(rng.below(2), 1)
-        w.write(rng.below(2), 1)
+        w.write(rng.below(2) if lW is None else lW, 1)
+        w.write(rng.below(2) if nW is None else nW, 1)
     n = (st["bs1"] if modes[mode]["blockflag"] else st["bs0"])
-    nbytes = nbytes if nbytes is not None else rng.choice([0, 1, 2, 5, 20, n // 16, n // 8, n // 4, n // 2])
-    style = rng.below(4)
+    nbytes = nbytes if nbytes is not None else rng.choice([0, 1, 5, 20, n // 16, n // 8, n // 8, n // 4, n // 4, n // 2, n])
+    style = rng.choice([0, 0, 0, 1, 2, 3])
+    if rng.below(4):
+        w.write(1, 1)             # a used floor-1 channel / a non-zero floor-0 amplitude bit
     for _ in range(nbytes):
         if style == 0:
             w.write(rng.below(256), 8)
@@ -220,3 +232,26 @@ def gen_packet(rng, st, mode=None, nbytes=None):
         else:
             w.write(rng.below(256) & rng.below(256), 8)
     return w.bytes(), mode
+
+
+def gen_sequence(rng, st, npk):
+    """packets whose window flags agree with their neighbours (a well-formed stream)"""
+    modes = st["setup"]["modes"]
+    ms = [rng.below(len(modes)) for _ in range(npk)]
+    Ws = [modes[m]["blockflag"] for m in ms]
+    out = []
+    for k, m in enumerate(ms):
+        lW = Ws[k - 1] if k > 0 else rng.below(2)
+        nW = Ws[k + 1] if k + 1 < npk else rng.below(2)
+        pkt, _ = gen_packet(rng, st, m, None, lW, nW)
+        out.append(pkt)
+    return out
+
+
+def meta_of(st):
+    s = st["setup"]
+    return {"bs0": st["bs0"], "bs1": st["bs1"], "channels": st["channels"],
+            "modes": [{"blockflag": m["blockflag"], "mapping": m.get("mapping", 0)} for m in s["modes"]],
+            "mappings": [{"mux": m.get("mux", [0] * st["channels"]), "floor": m.get("floor", [0])} for m in s["mappings"]],
+            "floors": [({"type": 0, "order": f["order"], "rate": f["rate"], "barkmap": f["barkmap"], "ampbits": f["ampbits"], "ampdB": f["ampdB"]}
+                        if f.get("type", 1) == 0 else {"type": 1}) for f in s["floors"]]}
